@@ -23,6 +23,7 @@ var ruleUsesCallGraph = map[string]bool{}
 var chaIncomparable = map[string]string{
 	"R-ATOMIC":                "the rule asks which functions run concurrently with a goroutine; CHA resolves every call of a func-typed value (rule closures, cobra callbacks) to every function of that signature, so initialisation code looks goroutine-reachable",
 	"R-PUBLISH-BEFORE-CANCEL": "same goroutine-reachability notion as R-ATOMIC",
+	"R-MONITOR-CONFINED":      "which goroutine entries reach the monitor's tables; CHA adds every func-valued call",
 	"R-SHARED-WRITE":          "reachability from the process goroutines; on CHA the set-up code of a run looks reachable from them",
 }
 
